@@ -315,6 +315,40 @@ func c03b(c *Ctx) {
 				}
 				if neg && flagSet && notDefault {
 					trailing = true
+					// ... and under nothing else: relative to the place where "no body was found"
+					// is established, the only further conditions are those two
+					var ref *ssa.BasicBlock
+					for _, b := range fn.Blocks {
+						if len(b.Preds) != 1 || !(b == ci.a.Block() || b.Dominates(ci.a.Block())) {
+							continue
+						}
+						lit := c.PC(fn).edgeLit(b.Preds[0], b)
+						if strings.HasPrefix(lit, "+(phi(") && strings.HasSuffix(lit, " == -1)") {
+							ref = b
+						}
+					}
+					if ref != nil {
+						base := map[string]bool{}
+						for _, l := range c.mustLits(fn, ref) {
+							base[l] = true
+						}
+						var extra []string
+						for _, l := range s.must {
+							if base[l] {
+								continue
+							}
+							if strings.HasPrefix(l, "+phi(") && !strings.Contains(l, " == ") && !strings.Contains(l, " < ") {
+								continue
+							}
+							if strings.HasPrefix(l, "-$0.Cases[") && strings.HasSuffix(l, "].IsDefault") {
+								continue
+							}
+							extra = append(extra, l)
+						}
+						c.Check(len(extra) == 0, name+"/trailing-empty-case/no-further-condition", c.W.Pos(ci.a.Pos()), "the empty chunk is made exactly when a default destination exists and the case is not the default", fmt.Sprintf("the empty chunk for a trailing body-less case is made under further conditions %v: when they fail, the case's value runs the default body", extra))
+					} else {
+						c.Unk(name+"/trailing-empty-case/no-further-condition", c.W.Pos(ci.a.Pos()), "cannot find the place where 'no body was found' is established")
+					}
 				}
 			}
 		}
